@@ -361,6 +361,14 @@ let do_fileio bs ofs =
              let (ok, s') = fio_seek zbs ofs bad s (z_of_int (int_of_string p)) in
              st := Some s'; disk := s'.dk;
              Printf.printf "r %s pos=%s size=%s eof=%d\n" (if ok then "ok" else "err") (zs s'.pos) (zs s'.fh.h_size) (if at_eof s' then 1 else 0)); show ()
+        | ["seekt"; p] ->
+          (* the seek of the library compiled with -DTEST_OFS_SEEK *)
+          (match !st with
+           | None -> print_endline "r nohandle"
+           | Some s ->
+             let (ok, s') = fio_seek_t zbs ofs bad s (z_of_int (int_of_string p)) in
+             st := Some s'; disk := s'.dk;
+             Printf.printf "r %s pos=%s size=%s eof=%d\n" (if ok then "ok" else "err") (zs s'.pos) (zs s'.fh.h_size) (if at_eof s' then 1 else 0)); show ()
         | "trunc" :: size :: ans ->
           (match !st with
            | None -> print_endline "r nohandle"
